@@ -142,6 +142,25 @@ func (s *session) block(kind string, a []int, hexpix string) (string, bool) {
 			im.Pix[i] = pix[4*i]
 		}
 		img = im
+	} else if strings.HasSuffix(kind, "y") || strings.HasSuffix(kind, "z") {
+		// halfy / fully: an *image.YCbCr 4:4:4 source, (Y, Cb, Cr) = the first three bytes of each pixel; halfz / fullz:
+		// 4:2:0 (what most JPEGs decode to): the chroma sample of a 2x2 block is taken from its top-left pixel
+		ratio := image.YCbCrSubsampleRatio444
+		if strings.HasSuffix(kind, "z") {
+			ratio = image.YCbCrSubsampleRatio420
+		}
+		im := image.NewYCbCr(image.Rect(0, 0, W, H), ratio)
+		for y := 0; y < H; y++ {
+			for x := 0; x < W; x++ {
+				i := y*W + x
+				im.Y[im.YOffset(x, y)] = pix[4*i]
+				if ratio == image.YCbCrSubsampleRatio444 || (x%2 == 0 && y%2 == 0) {
+					im.Cb[im.COffset(x, y)] = pix[4*i+1]
+					im.Cr[im.COffset(x, y)] = pix[4*i+2]
+				}
+			}
+		}
+		img = im
 	} else if strings.HasSuffix(kind, "q") {
 		var pal color.Palette
 		idx := map[[4]byte]int{}
@@ -350,7 +369,7 @@ func (s *session) execOp(f []string) (string, bool) {
 			return "panic", true
 		}
 		return res, true
-	case "half", "full", "halfp", "fullp", "halfg", "fullg", "halfq", "fullq":
+	case "half", "full", "halfp", "fullp", "halfg", "fullg", "halfq", "fullq", "halfy", "fully", "halfz", "fullz":
 		if len(f) != 10 {
 			return "", false
 		}
@@ -898,15 +917,16 @@ func genBlocks(r *hx.Run, rng *gen.Rng, do func(string) string) {
 			r.Count(kind + "-block-rescaled-opaque")
 		}
 	}
-	// round 4: sources of other concrete types — *image.Gray (the scaler's Gray fast path) and *image.Paletted with a
-	// color.NRGBA palette (the scaler's generic path; translucent entries in half of them) — unscaled and rescaled
-	mg := 600
+	// round 4: sources of other concrete types — *image.Gray (the scaler's Gray fast path), *image.Paletted with a
+	// color.NRGBA palette (the scaler's generic path; translucent entries in half of them), *image.YCbCr 4:4:4 and 4:2:0
+	// (the scaler's YCbCr fast paths; what JPEGs decode to) — unscaled and rescaled
+	mg := 1000
 	if r.Thorough {
-		mg = 6000
+		mg = 10000
 	}
 	for i := 0; i < mg; i++ {
 		W, H := rng.Range(1, 9), rng.Range(1, 12)
-		kind := gen.Pick(rng, []string{"halfg", "fullg", "halfq", "fullq", "halfq", "fullq"})
+		kind := gen.Pick(rng, []string{"halfg", "fullg", "halfq", "fullq", "halfq", "fullq", "halfy", "fully", "halfz", "fullz"})
 		px := make([][4]int, W*H)
 		var pal [][4]int
 		translucent := rng.Chance(1, 2)
@@ -921,6 +941,10 @@ func genBlocks(r *hx.Run, rng *gen.Rng, do func(string) string) {
 			if strings.HasSuffix(kind, "g") {
 				y := rng.Intn(256)
 				px[k] = [4]int{y, y, y, 255}
+			} else if strings.HasSuffix(kind, "y") || strings.HasSuffix(kind, "z") {
+				// (Y, Cb, Cr), extremes included (conversions that clamp)
+				px[k] = [4]int{gen.Pick(rng, []int{0, 16, 128, 235, 255, rng.Intn(256)}), gen.Pick(rng, []int{0, 128, 255, rng.Intn(256)}),
+					gen.Pick(rng, []int{0, 128, 255, rng.Intn(256)}), 255}
 			} else {
 				px[k] = gen.Pick(rng, pal)
 			}
